@@ -504,7 +504,7 @@ func (s *Session) beginROWithTimeout(prop string) {
 		if r != "ok" {
 			s.fail(prop, "beginro", "BeginReadonly after open: %s", r)
 		}
-	case <-time.After(2 * time.Second):
+	case <-time.After(10 * time.Second):
 		s.fail(prop, "beginro-blocks", "BeginReadonly blocks after open (pending lock left set)")
 		// unblock the goroutine: a write commit clears the flag
 	}
